@@ -19,6 +19,47 @@ TREE_ACCESSORS = ("parent", "next_sibling", "prev_sibling", "children", "first_c
                   "insert_before_sibling", "append_child", "replace_with_element_name")
 
 
+def replacement_node_rules(ctx, w, rule):
+    """How a deprecated element is swapped for its replacement: attributes first, the new node inserted where the old one was, and the NEW node is
+    what the sanitizer goes on with. Part of C15 (rewriting) and of C14 (the replacement and its subtree are cleaned)."""
+    # attribute replacement is looked up under the old name, before renaming
+    f = w.fn(CL + IMPL + "apply_replacements")
+    calls = [(bi, M.callee_name(c), c["line"]) for bi, c in M.calls(f["body"])]
+    ren = [ln for _, n, ln in calls if n.endswith("replace_with_element_name")]
+    attr_lookup = [ln for _, n, ln in calls if n.endswith("phf::map::Map::<K, V>::get") or n.endswith("Map::<K, V>::get")]
+    cfg = M.Cfg(f["body"])
+    ren_blocks = [bi for bi, n, _ in calls if n.endswith("replace_with_element_name")]
+    borrow_blocks = [bi for bi, n, _ in calls if n.endswith("RefCell::<T>::borrow_mut")]
+    good = len(ren_blocks) == 1 and bool(borrow_blocks) and all(not cfg.reaches(ren_blocks[0], [b]) for b in borrow_blocks)
+    ctx.check(good, rule, f"{rule}:attrs-before-rename", w.where(f), bad_msg="attributes are rewritten after (or independently of) the element rename")
+    ret_ok = any(M.callee_name(c).endswith("replace_with_element_name") and c["dest"] == 0 for _, c in M.calls(f["body"]))
+    ctx.check(ret_ok, rule, f"{rule}:returns-replacement", w.where(f), bad_msg="apply_replacements does not return the replacement node")
+
+    # ---- the node that takes the place of a renamed element is the one that is cleaned next -----------------------------------------------
+    frn = w.lookup("ruma_html::html::NodeRef::replace_with_element_name")
+    if frn is None or "body" not in frn:
+        ctx.missing(rule, f"{rule}:replace-returns-new-node", "NodeRef::replace_with_element_name not found")
+    else:
+        dexn = D.Dex(w.lookup, adt_discr=w.adt_discr, unroll=1, effects=lambda n_: n_.startswith("ruma_html::"))
+        try:
+            rps_ = [p for p in dexn.paths(frn, [D.sym("self"), D.sym("name")]) if p.kind == "ret"]
+            good_ = bool(rps_)
+            why_ = ""
+            for p in rps_:
+                ins = [e for e in p.effects if e[0].endswith("::insert_before_sibling")]
+                det = [e for e in p.effects if e[0].endswith("::detach")]
+                newn = D.show(ins[0][1][0]) if ins else None
+                ok_ = len(ins) == 1 and D.show(ins[0][1][1]) == "self" and any(D.show(e[1][0]) == "self" for e in det) and D.show(p.ret) == newn and newn != "self"
+                if not ok_:
+                    good_, why_ = False, f"returns `{D.show(p.ret)[:60]}`, inserts `{(newn or '-')[:60]}` before `{D.show(ins[0][1][1]) if ins else '-'}`"
+            ctx.check(good_, rule, f"{rule}:replace-returns-new-node", w.where(frn),
+                      bad_msg=f"replace_with_element_name must insert the new element before the old one, detach the old one and RETURN THE NEW ONE ({why_}): "
+                              f"clean_node goes on with the returned node, so returning the detached original leaves the replacement and its subtree uncleaned")
+        except D.Unrecognised as e:
+            ctx.unrecognised(rule, f"{rule}:replace-returns-new-node", w.where(frn), str(e))
+
+
+
 def run(ctx):
     fx = ctx.facts("A")
     w = W.World(fx, ["ruma_html"])
@@ -38,18 +79,7 @@ def run(ctx):
             ctx.check(new in attrs.get(target, []), "C15.closure", f"C15.closure:attr:{el}.{old}->{new}", w.where_value(CL + "DEPRECATED_ATTRS"),
                       bad_msg=f"{el}.{old} -> {new} is not an allowed attribute of <{target}> (it would be removed by the second pass)")
 
-    # attribute replacement is looked up under the old name, before renaming
-    f = w.fn(CL + IMPL + "apply_replacements")
-    calls = [(bi, M.callee_name(c), c["line"]) for bi, c in M.calls(f["body"])]
-    ren = [ln for _, n, ln in calls if n.endswith("replace_with_element_name")]
-    attr_lookup = [ln for _, n, ln in calls if n.endswith("phf::map::Map::<K, V>::get") or n.endswith("Map::<K, V>::get")]
-    cfg = M.Cfg(f["body"])
-    ren_blocks = [bi for bi, n, _ in calls if n.endswith("replace_with_element_name")]
-    borrow_blocks = [bi for bi, n, _ in calls if n.endswith("RefCell::<T>::borrow_mut")]
-    good = len(ren_blocks) == 1 and bool(borrow_blocks) and all(not cfg.reaches(ren_blocks[0], [b]) for b in borrow_blocks)
-    ctx.check(good, "C15.closure", "C15.closure:attrs-before-rename", w.where(f), bad_msg="attributes are rewritten after (or independently of) the element rename")
-    ret_ok = any(M.callee_name(c).endswith("replace_with_element_name") and c["dest"] == 0 for _, c in M.calls(f["body"]))
-    ctx.check(ret_ok, "C15.closure", "C15.closure:returns-replacement", w.where(f), bad_msg="apply_replacements does not return the replacement node")
+    replacement_node_rules(ctx, w, "C15.closure")
 
     # ---- locality ------------------------------------------------------------------------------------------------
     ctx.rule("C15.locality", "node_action and clean_element_attributes (and their closures) never touch the tree around the node")
